@@ -256,7 +256,7 @@ Definition mask_C09 := mkMask    false true  true  true  true  true  true  true 
 Definition mask_C11 := mkMask    true  true  true  true  true  true  true  true  true  true.
 Definition mask_C18 := mkMask    true  true  true  false false false false false false false.
 
-Definition is_dump (o : sop) : bool := match o with SDump _ _ => true | _ => false end.
+Definition is_dump (o : sop) : bool := match o with SDump _ _ | SDumpKeys _ _ => true | _ => false end.
 Definition subdoc_op (op : kop) : bool :=
   match op with KWriteSubDoc _ _ _ | KSubdocInsert _ _ _ | KGetSubDocRaw _ => true | _ => false end.
 
@@ -270,7 +270,7 @@ Definition mask_other_colls (o : sop) (ob : ostep) : ostep :=
   | _ => ob
   end.
 
-Definition kv_corr_C09 := kv_corr_proj mask_C09 (fun o => match o with SDump _ _ | SKv _ _ _ => true | _ => false end).
+Definition kv_corr_C09 := kv_corr_proj mask_C09 (fun o => match o with SDump _ _ | SDumpKeys _ _ | SKv _ _ _ => true | _ => false end).
 Definition kv_corr_C18 := kv_corr_addr mask_C18 (rel_kv subdoc_op).
 Definition kv_corr_C11 (c : scase * list ostep) : bool :=
   match first_mismatch 0 (srun (fst c)) (snd c) with
